@@ -110,8 +110,33 @@ class Sandbox:
         return mt
 
     # -- snapshot ---------------------------------------------------------
+    def recorded_outputs(self):
+        """Real paths of the output files recorded in the cache file that is on disk now (empty if none / unreadable)."""
+        import gzip
+        import json
+        try:
+            with open(self.cache_file(), 'rb') as f:
+                doc = json.loads(gzip.decompress(f.read()).decode())
+        except Exception:       # noqa
+            return set()
+        found = set()
+
+        def walk(ops):
+            for o in ops or []:
+                if isinstance(o, dict):
+                    if o.get('type') == 'build_file' and not o.get('setupFailed') and isinstance(o.get('filename'), str):
+                        found.add(os.path.realpath(o['filename']))
+                    walk(o.get('suboperations'))
+        walk(doc.get('rootOperations') if isinstance(doc, dict) else None)
+        return found
+
     def node(self, filename, st=None):
         st = st or os.lstat(filename)
+        if (stat.S_ISLNK(st.st_mode) and getattr(self, 'alias_pins', False)
+                and os.path.realpath(filename) in self.recorded_outputs()):
+            # projection rule for histories with links that alias outputs (KF-link-to-stale-output): a symbolic link
+            # to a file the current cache file records as an output is what it is from scratch - a link to nothing
+            return {'t': 'pin'}
         if stat.S_ISLNK(st.st_mode) and os.path.isfile(filename):
             st = os.stat(filename)          # a link to a regular file counts as that file
         elif stat.S_ISLNK(st.st_mode) and not os.path.exists(filename):
@@ -237,6 +262,14 @@ class Sandbox:
             elif os.path.lexists(fn):
                 os.remove(fn)
             os.symlink(os.path.join(self.top, 'nowhere', 'at-all'), fn)
+        elif do == 'linkto':
+            # a symbolic link at p that points at another path of the tree (which may be an output of a build)
+            self._force_dirs(os.path.dirname(fn))
+            if os.path.isdir(fn) and not os.path.islink(fn):
+                shutil.rmtree(fn)
+            elif os.path.lexists(fn):
+                os.remove(fn)
+            os.symlink(self.path(step['to']), fn)
         elif do == 'corrupt_cache':
             self.corrupt_cache(step['how'], step.get('arg', 0))
         elif do == 'plant_raw':
